@@ -10,15 +10,19 @@ What is abstracted
 * File content is a list of cells `(owner profile, offset)`; `ser p` is the serialisation of `p`;
   a file *parses* iff it is exactly `ser p` for some `p` (the real parser rejects the empty file,
   a prefix and a mix — checked on the real code by `harness/corr/C15.py`).
-* `open(path, "wb")` truncates; `write` puts the data at the handle's offset 0 over whatever is
-  there (`overlay`); the model makes the data visible at `write` (Python may buffer it until
-  `close`; the harness flushes in its wrapper so that both can be compared action by action).
+* The cache is replaced atomically (repo commit "fix: the FI profile cache is replaced atomically"):
+  `tempfile.mkstemp(dir=persistdir, …)` creates a file private to the process (`Proc.tmp`), `write` puts the
+  data at offset 0 of that file (`overlay`), `close`, then `os.replace(tmppath, persistpath)` makes the cache
+  file *be* the temporary file in one action.  A process that dies in between leaves a stray `*.tmp` file
+  (`Proc.tmp` stays `some _`) and never touches the cache file.  The `except BaseException: os.unlink(tmppath)`
+  clean-up is reached only when one of these actions raises, which no modelled action does (disk full, permission
+  errors are not modelled).
 * The cache file name is `f"{org}-{fid}.profrs"` (`cacheKey`), `None` rendered by `str(None)`.
 
 The actions, in program order (`PC`): `exists()`, `open(rb)/read/parse`, `mkdir`, POST,
 parse of the response, `assert profrs is not None` (status 1), `assert code == 0`,
 `proftrnrs.profrs.dtprofup`, `assert dtprofup is None or dtprofup <= dtprofup_server`,
-`open(wb)`, `write`, `close`.  Python is assumed to run without `-O` (asserts raise).
+`mkstemp`, `write`, `close`, `os.replace`.  Python is assumed to run without `-O` (asserts raise).
 -/
 import OfxModel.Proto
 import OfxModel.Py.Err
@@ -87,9 +91,10 @@ inductive PC where
   | assertCode0 (held : Option Profile) (is0 : Bool) (p : Option Profile)   -- assert status.code == 0
   | serverDate (held : Option Profile) (p : Option Profile)                 -- proftrnrs.profrs.dtprofup
   | assertDate (held : Option Profile) (p : Profile)   -- assert dtprofup is None or dtprofup <= dtprofup_server
-  | openWb (p : Profile)                               -- open(persistpath, "wb")  (truncates)
-  | write (p : Profile)                                -- f.write(response.read())
+  | mkstemp (p : Profile)                              -- tempfile.mkstemp(dir=persistdir, …); os.fdopen(fd, "wb")
+  | write (p : Profile)                                -- f.write(response.read())   (into the temporary file)
   | close (p : Profile)                                -- leaving the `with` block
+  | replace (p : Profile)                              -- os.replace(tmppath, persistpath)   (atomic)
   | done (r : Except Err Ret)
   deriving Repr
 
@@ -100,6 +105,7 @@ structure Proc where
   beh  : Beh           -- what the server will answer to this process's PROFRQ
   dry  : Bool := false
   sent : Option (Option Nat) := none
+  tmp  : Option Content := none     -- this process's temporary file (`none`: it has none)
   deriving Repr
 
 def Proc.init (beh : Beh) (dry : Bool := false) : Proc := { pc := .start, beh := beh, dry := dry }
@@ -148,14 +154,18 @@ def stepProc (disk : Disk) (pr : Proc) : Disk × Proc :=
     | none => (disk, { pr with pc := .done (.error .attr) })            -- None.dtprofup
   | .assertDate held p =>
     match held with
-    | none => (disk, { pr with pc := .openWb p })
+    | none => (disk, { pr with pc := .mkstemp p })
     | some q =>
-      if q.date ≤ p.date then (disk, { pr with pc := .openWb p })
+      if q.date ≤ p.date then (disk, { pr with pc := .mkstemp p })
       else (disk, { pr with pc := .done (.error .assert) })
-  | .openWb p => (some [], { pr with pc := .write p })                  -- truncate (or create)
+  | .mkstemp p => (disk, { pr with pc := .write p, tmp := some [] })    -- a new, empty, private file
   | .write p =>
-    (some (overlay (match disk with | some c => c | none => []) (ser p)), { pr with pc := .close p })
-  | .close p => (disk, { pr with pc := .done (.ok (.prof p)) })
+    (disk, { pr with pc := .close p,
+                     tmp := some (overlay (match pr.tmp with | some c => c | none => []) (ser p)) })
+  | .close p => (disk, { pr with pc := .replace p })
+  | .replace p =>                                                       -- the cache file becomes the temporary file
+    ((match pr.tmp with | some c => some c | none => disk),
+     { pr with pc := .done (.ok (.prof p)), tmp := none })
   | .done _ => (disk, pr)
 
 /-- run one process alone for at most `fuel` actions -/
@@ -202,7 +212,7 @@ def runSeq : Disk → List Beh → List StepRec
 
 inductive Act where
   | step (i : Nat)     -- process `i` performs its next action
-  | crash (i : Nat)    -- process `i` dies here (its open handle is dropped, nothing else happens)
+  | crash (i : Nat)    -- process `i` dies here (nothing else happens: its temporary file, if any, stays)
   deriving DecidableEq, Repr
 
 structure Sys where
